@@ -474,8 +474,9 @@ func (m *Model) onAtomic(ev Event) {
 		return
 	}
 	// An automatic removal.
-	if m.registered[k] {
-		// the removal of the key discards the in-flight load of that key
+	if m.registered[k] && cause != otter.CauseExpiration {
+		// the eviction of the key discards the in-flight load of that key; the sweep of an entry that
+		// had expired does not (the entry was absent for the load already; since the D26 repair)
 		m.cancelled[k] = true
 	}
 	switch cause {
@@ -523,8 +524,12 @@ func (m *Model) onAtomic(ev Event) {
 	m.removed = append(m.removed, remEv{cause: ev.Sub, w: cur.w})
 	delete(m.phys, k)
 	if p != nil && p.isCall && !p.isFake && !p.started {
-		// the load of this key has finished but its result is not installed yet: it is discarded
-		p.done = true
+		// the load of this key has finished but its result is not installed yet: an eviction of the
+		// key discards it; the sweep of an entry that had expired does not (it was absent for the
+		// load already; since the D26 repair) - the installation is still to come, as a creation
+		if cause != otter.CauseExpiration {
+			p.done = true
+		}
 		return
 	}
 	if p != nil {
